@@ -13,6 +13,7 @@ pub fn ioerr(ex: &mut Exec, inner: &Op, after: u32, errno: i32, tryio: bool) {
 		return
 	}
 	ex.stats.probe("ioerr_ops");
+	simdisk::with(|d| d.monitor = false);
 	let lo = ex.n_synced;
 	let logged_before = ex.logged();
 	let queued = ex.pipeline_counts().0;
